@@ -431,7 +431,7 @@ func handleISUPPORT(c *Client, e Event) {
 	for i := 1; i < len(e.Params)-1; i++ {
 		j := strings.IndexByte(e.Params[i], '=')
 
-		if j < 1 || (j+1) == len(e.Params[i]) {
+		if j < 1 {
 			c.state.serverOptions[e.Params[i]] = ""
 			continue
 		}
